@@ -2,11 +2,16 @@
    Proved: every function of the model is a total Coq function (structural recursion or explicit
    fuel bounded by the input length), and the one Go operation of the token loop that can panic
    (indexing the closing-tag stack) is unreachable for every token list and policy.
+   The one unbounded loop of /repo's own code, the escape-decoding loop of removeUnicode, makes
+   progress on every input: each decoded escape is replaced by something strictly shorter
+   (C14_escape_loop_progress), so it runs at most len(value) times, ends with no escape left or
+   gives the value up (C14_escape_loop_ends), and the fuel of the model is never what stops it
+   (C14_fuel_irrelevant: the model IS the unbounded loop).
    Wall-clock time is not a theorem; the cost of recursiveCheck is validated by call counters on
    size-parameterised adversarial families (see the C14 check). *)
 From Coq Require Import List NArith Bool.
 Import ListNotations.
-From BM Require Import Bytes Tokenizer Policy Loop Entry LoopInv EntryProofs.
+From BM Require Import Bytes Tokenizer Policy Style Loop Entry LoopInv EntryProofs StyleTermination.
 
 Section C14.
   Variables M U R : Type.
@@ -25,5 +30,24 @@ Section C14.
   Qed.
 End C14.
 
+(* removeUnicode: progress, termination, adequacy of the fuel *)
+Theorem C14_escape_loop_progress : forall s pre h sp rest rep,
+  find_escape s = Some (pre, h, sp, rest) -> escape_replacement h = Some rep ->
+  (length (pre ++ rep ++ rest) < length s)%nat.
+Proof. exact step_shrinks. Qed.
+
+Theorem C14_escape_loop_ends : forall s, remove_unicode s = [] \/ find_escape (remove_unicode s) = None.
+Proof. exact remove_unicode_complete. Qed.
+
+Theorem C14_fuel_irrelevant : forall f1 f2 s, (length s < f1)%nat -> (length s < f2)%nat ->
+  remove_unicode_fuel f1 s = remove_unicode_fuel f2 s.
+Proof. exact remove_unicode_fuel_irrelevant. Qed.
+
+Example C14_escape_loop_example : remove_unicode (B"\5c \5c x\72 ed") = [92; 92; 120; 114; 101; 100].
+Proof. vm_compute. reflexivity. Qed.
+
 Print Assumptions C14_no_panic.
+Print Assumptions C14_escape_loop_progress.
+Print Assumptions C14_escape_loop_ends.
+Print Assumptions C14_fuel_irrelevant.
 Print Assumptions C14_entry_points_no_panic.
